@@ -146,7 +146,14 @@ def patterns(old, new, ign):
     for i in d["removed"]:
         if old[i][1] == "d" and any(is_prefix(o[j], old[i][0]) for j in ren):
             out.add("removed-dir-under-rename")
+        # an ignored entry is never deleted, so the directory around it cannot be removed
+        if old[i][1] == "d" and not ignored(ign, old[i][0]) and any(
+                q != old[i][0] and is_prefix(old[i][0], q) and ignored(ign, q) for q in old_paths):
+            out.add("ignored-under-removed-dir")
     for i in d["kind_changed"]:
+        if old[i][1] == "d" and not ignored(ign, new[i][0]) and any(
+                q != old[i][0] and is_prefix(old[i][0], q) and ignored(ign, q) for q in old_paths):
+            out.add("ignored-under-removed-dir")
         if old[i][0] != new[i][0]:
             out.add("kind-change-under-rename")
         if new[i][1] == "l" and "/" in new[i][0] and not ignored(ign, new[i][0]):
@@ -457,7 +464,7 @@ FINDINGS = {
     "C43-rename-loses-change": {"rename+kind", "rename+retarget", "rename+exec"},
     "C43-incremental-symlink": {"symlink-subdir", "symlink-modified"},
     "C43-full-keeps-stale": {"full-stale", "full-symlink-over-file"},
-    "C43-ignore-boundary": {"ignore-boundary", "ignore-list-changed"},
+    "C43-ignore-boundary": {"ignore-boundary", "ignore-list-changed", "ignored-under-removed-dir"},
 }
 
 
